@@ -3,7 +3,7 @@ import ast
 
 from .. import rx
 from ..fold import Rx, UNKNOWN
-from ..model import AnalysisError, norm, head, qual_of, walk_own
+from ..model import AnalysisError, norm, head, qual_of, walk_own, reaching_values
 
 TOK = 'parso/python/tokenize.py'
 PREFIX = 'parso/python/prefix.py'
@@ -1166,3 +1166,93 @@ def rx_5c(ctx, rep):
            bad is None,
            'for the declared name %r CPython decodes with %r, parso with %r' % bad if bad else '',
            witness=bad[0] if bad else None)
+
+
+# ---------------------------------------------------------------------------------------------------------------
+# RX-5d  the bytes of a file reach the decoder undecoded
+def _open_mode(call):
+    """('bin'|'text'|None, encoding-given) for an open()/io.open()/Path.open() call."""
+    mode = None
+    args = list(call.args)
+    fn = call.func
+    is_method = isinstance(fn, ast.Attribute) and fn.attr == 'open' and not (isinstance(fn.value, ast.Name) and fn.value.id in ('io', 'os', 'builtins', 'codecs'))
+    pos = 0 if is_method else 1
+    if len(args) > pos:
+        mode = args[pos]
+    enc = False
+    for k in call.keywords:
+        if k.arg == 'mode':
+            mode = k.value
+        if k.arg in ('encoding', 'errors', 'newline'):
+            enc = True
+    if mode is None:
+        return 'text', enc
+    if isinstance(mode, ast.Constant) and isinstance(mode.value, str):
+        return ('bin' if 'b' in mode.value else 'text'), enc
+    return None, enc
+
+
+def rx_5d(ctx, rep):
+    rep.rule('RX-5d', 'the content of a file is handed to the decoder as bytes: every file object opened by a FileIO '
+                      'read method is binary, nothing on the way from file_io.read() to python_bytes_to_unicode decodes '
+                      '(a text-mode read would decode with a codec chosen before the coding declaration was seen)')
+    FIO = 'parso/file_io.py'
+    GRAMMAR = 'parso/grammar.py'
+    mod = ctx.prog.mod(FIO)
+    n_sites = 0
+    base = ctx.prog.cls(FIO, 'FileIO')
+    if base is None:
+        raise AnalysisError('anchor vanished: parso/file_io.py:FileIO')
+    for f in [f for f in ctx.prog.funcs.values() if f.mod.rel == FIO]:
+        if f.cls is None:
+            continue
+        for n in walk_own(f.node):
+            if not isinstance(n, ast.Call):
+                continue
+            fn = n.func
+            name = fn.id if isinstance(fn, ast.Name) else fn.attr if isinstance(fn, ast.Attribute) else None
+            if name == 'open' and not (isinstance(fn, ast.Attribute) and isinstance(fn.value, ast.Name) and fn.value.id == 'os'):
+                kind, enc = _open_mode(n)
+                n_sites += 1
+                rep.ob('RX-5d', FIO, f.qual, 'open() at the source-reading site', kind == 'bin' and not enc,
+                       'the file is opened in text mode (or with encoding/newline arguments): its bytes are decoded here, with a '
+                       'codec fixed in advance, and the coding declaration / BOM rules of python_bytes_to_unicode never see them'
+                       if kind != 'bin' or enc else '', witness=ast.unparse(n))
+            elif name in ('read_text', 'decode', 'fdopen') or (name == 'str' and len(n.args) > 1):
+                n_sites += 1
+                rep.ob('RX-5d', FIO, f.qual, '%s() in a FileIO method' % name, False,
+                       'file content is decoded outside python_bytes_to_unicode', witness=ast.unparse(n))
+            elif name == 'read_bytes':
+                n_sites += 1
+                rep.ob('RX-5d', FIO, f.qual, 'read_bytes() at the source-reading site', True)
+    # the parse entry point hands what it read to the decoder unchanged
+    gmod = ctx.prog.mod(GRAMMAR)
+    n_dec = 0
+    for f in [f for f in ctx.prog.funcs.values() if f.mod.rel == GRAMMAR]:
+        for n in walk_own(f.node):
+            if isinstance(n, ast.Call) and isinstance(n.func, ast.Name) and n.func.id == 'python_bytes_to_unicode' and n.args:
+                n_dec += 1
+                a = n.args[0]
+                srcs = [a]
+                if isinstance(a, ast.Name):
+                    srcs = reaching_values(f.node, a) or []
+                bad = None
+                params = {p for p in f.all_params()}
+                for s in srcs:
+                    if isinstance(s, ast.Call) and isinstance(s.func, ast.Attribute) and s.func.attr == 'read' and not s.args:
+                        continue
+                    if isinstance(s, ast.Name) and s.id in params:
+                        continue
+                    bad = s
+                # a parameter that is not re-assigned reaches as itself
+                rep.ob('RX-5d', GRAMMAR, f.qual, 'argument of python_bytes_to_unicode', bad is None,
+                       'what is decoded is not the caller\'s code / the result of file_io.read() but %s' % (ast.unparse(bad) if bad is not None else ''),
+                       witness=ast.unparse(bad) if bad is not None else None)
+            elif isinstance(n, ast.Call) and isinstance(n.func, ast.Attribute) and n.func.attr == 'decode':
+                rep.ob('RX-5d', GRAMMAR, f.qual, '.decode() in the parse entry module', False,
+                       'source is decoded outside python_bytes_to_unicode', witness=ast.unparse(n))
+    if not n_sites:
+        raise AnalysisError('RX-5d: no source-reading site found in parso/file_io.py')
+    if not n_dec:
+        raise AnalysisError('RX-5d: no call of python_bytes_to_unicode found in parso/grammar.py')
+    rep.minimum('RX-5d', 2, 'file-reading sites and decoder calls')
